@@ -56,6 +56,94 @@ def gen_addr(rnd, utf8):
             return a
 
 
+class WireRec(object):
+    """the relay's end of a connection, with everything that crosses it written down (clear-text hops only)"""
+
+    def __init__(self, sock, log):
+        self._s, self._log = sock, log
+
+    def sendall(self, data):
+        self._log.append(('c', bytes(data)))
+        return self._s.sendall(data)
+
+    def recv(self, n):
+        d = self._s.recv(n)
+        if d:
+            self._log.append(('s', d))
+        return d
+
+    def __getattr__(self, name):
+        return getattr(self._s, name)
+
+
+def conversation(log):
+    """what crossed one connection, as the design model Hop writes it down: [message, stage, index, answer class] per
+    command, in the order of the answers.  None when the bytes do not fit the grammar of a relay conversation."""
+    import re
+    cbytes = b''.join(d for w, d in log if w == 'c')
+    sbytes = b''.join(d for w, d in log if w == 's')
+    replies, pos = [], 0
+    for m in re.finditer(rb'(\d\d\d)([ -])[^\r\n]*\r\n', sbytes):
+        if m.start() != pos:
+            return None
+        pos = m.end()
+        if m.group(2) == b' ':
+            replies.append(int(m.group(1)))
+    if pos != len(sbytes):
+        return None
+    stages, rest, in_data_pending = [('banner', 0)], cbytes, False
+    ri, msg, nr = 0, 1, 0
+    out = [[1, 'conn', 0, 'ok']]
+    # commands are parsed one after the other; whether DATA was answered 354 decides how the bytes behind it read
+    cmds = []
+    while True:
+        # answer to the command (or greeting) at the head of `stages`
+        if not stages:
+            if not rest:
+                break
+            k = rest.find(b'\r\n')
+            if k < 0:
+                return None
+            line, rest = rest[:k], rest[k + 2:]
+            verb = line.split(b' ')[0].upper().split(b':')[0]
+            if verb in (b'EHLO', b'LHLO'):
+                stages.append(('ehlo', 0))
+            elif verb == b'HELO':
+                stages.append(('helo', 0))
+            elif verb == b'MAIL':
+                if any(e[1] == 'eod' or e[1] == 'rset' for e in out if e[0] == msg) or any(e[1] == 'mail' for e in out if e[0] == msg):
+                    msg += 1
+                nr = 0
+                stages.append(('mail', 0))
+            elif verb == b'RCPT':
+                nr += 1
+                stages.append(('rcpt', nr))
+            elif verb == b'DATA':
+                stages.append(('data', 0))
+            elif verb == b'RSET':
+                stages.append(('rset', 0))
+            elif verb == b'QUIT':
+                stages.append(('quit', 0))
+            else:
+                return None
+            continue
+        st, i = stages.pop(0)
+        if ri >= len(replies):
+            break                  # the connection was given up before this answer came
+        code = replies[ri]
+        ri += 1
+        # (421 ends the session on the edge's side: the model of the hop has no such answer - written down as its own class)
+        cls = 'ok' if code < 400 else 'c421' if code == 421 else 't4' if code < 500 else ('e500' if st == 'ehlo' and code == 500 else 'p5')
+        out.append([msg, st, i, cls])
+        if st == 'data' and code == 354:
+            k = 0 if rest.startswith(b'.\r\n') else rest.find(b'\r\n.\r\n')
+            if k < 0:
+                return None
+            rest = rest[(3 if rest.startswith(b'.\r\n') else k + 5):]
+            stages.insert(0, ('eod', 0))
+    return out
+
+
 def smtp_hop(rnd, cfg):
     got = []
     edge_rcpt = []
@@ -111,7 +199,11 @@ def smtp_hop(rnd, cfg):
             except BaseException:  # noqa
                 pass
         servers.append(gevent.spawn(run))
+        if not cfg.get('tls'):
+            wires.append([])
+            return WireRec(a, wires[-1])
         return a
+    wires = []
     clients = []
 
     class Rec(StaticSmtpRelay._default_class):
@@ -135,6 +227,13 @@ def smtp_hop(rnd, cfg):
             c.kill(block=False)
     except Exception:  # noqa
         pass
+    # the conversations of this hop in the vocabulary of the design model (spec/Hop.tla), with the results the relay reported
+    if wires and outs and not cfg.get('tls'):
+        convs = [conversation(w) or [] for w in wires]
+        norms = [ev[-1].get('norm') or [] for _, ev in outs]
+        nrs = [ev[-1].get('nrcpt', 0) for _, ev in outs]
+        outs[-1][1].insert(len(outs[-1][1]) - 1, {'t': 'wire', 'convs': convs, 'results': norms, 'nrcpt': nrs,
+                                                   'pipelining': bool(cfg['ext'].get('PIPELINING', True)), 'reuse': bool(cfg.get('reuse'))})
     return outs
 
 
@@ -184,10 +283,15 @@ def _one_message(rnd, cfg, relay, got, edge_rcpt, clients, live, msgno):
     accepted = [r for r in rcpts if 'reject' not in r]
     sent = {'sender': list(sender.encode('utf-8')), 'rcpts': [list(r.encode('utf-8')) for r in accepted], 'content': list(h0 + b0)}
     res = {'t': 'result', 'edge_code': cfg['reject'] or 250, 'relay': 'other', 'relay_code': 0, 'per': [], 'edge_per': edge_rcpt}
+    res['nrcpt'] = len(rcpts) if len(set(rcpts)) == len(rcpts) else 0        # (0: an address listed twice - results are keyed by address)
     try:
         with gevent.Timeout(10):
             r = relay.attempt(env, 0)
         vals = list(r.values()) if isinstance(r, dict) else [r]
+        if isinstance(r, dict):
+            res['norm'] = ['map', ['P' if isinstance(r.get(x), PermanentRelayError) else 'T' if isinstance(r.get(x), TransientRelayError) else 'ok' for x in rcpts]]
+        else:
+            res['norm'] = ['map', ['ok'] * len(rcpts)]
         if isinstance(r, dict):
             res['per'] = [int(r[x].reply.code) if isinstance(r[x], (PermanentRelayError, TransientRelayError)) else 250 for x in rcpts]
         if cfg.get('rcpt_reject') and isinstance(r, dict) and any(v is None or not isinstance(v, (PermanentRelayError, TransientRelayError)) for v in vals):
@@ -199,9 +303,9 @@ def _one_message(rnd, cfg, relay, got, edge_rcpt, clients, live, msgno):
         else:
             res.update(relay='ok', relay_code=int(vals[0].code) if vals[0] is not None else 250)
     except PermanentRelayError as e:
-        res.update(relay='P', relay_code=int(e.reply.code))
+        res.update(relay='P', relay_code=int(e.reply.code), norm=['raise', 'P'])
     except TransientRelayError as e:
-        res.update(relay='T', relay_code=int(e.reply.code))
+        res.update(relay='T', relay_code=int(e.reply.code), norm=['raise', 'T'])
     except BaseException as e:  # noqa
         res['exc'] = type(e).__name__
     res['edge_per'] = list(edge_rcpt)
